@@ -299,7 +299,11 @@ func concRun(cs *C18Case, sr *RNG, replay bool, st *C18Stats) *concResult {
 			}
 			nsw++
 			if cs.Big && nsw&1023 != 0 {
-				// large shared tensors: metadata at every switch, elements at every 1024th (and after the run)
+				// large shared tensors: metadata (which includes the mask) at every 16th switch, elements at every
+				// 1024th, and everything after the run
+				if nsw&15 != 0 {
+					return
+				}
 				now := sharedHashes(shared, false)
 				for i := range now {
 					if now[i] != initMeta[i] {
@@ -520,6 +524,9 @@ judge:
 		// more context switches than the tape holds: the run was cut short and says nothing
 		if st != nil {
 			st.TapeFull++
+		}
+		if *flagVerbose {
+			fmt.Fprintf(os.Stderr, "C18 seed %d: tape overflow: strategy %s, %d clients, big=%v micro=%v, %d yields\n", cs.Seed, cs.Strategy, cs.Clients, cs.Big, cs.Micro, S.total)
 		}
 		return nil, res.digest
 	}
